@@ -887,7 +887,9 @@ class SVDMimo(Blast):
             The receive_filter that can be applied to the input data.
         """
         Nt = channel.shape[1]
-        U, S, _ = np.linalg.svd(channel)
+        # With more receive than transmit antennas only the first Nt left
+        # singular vectors are needed (U is Nr x Nt)
+        U, S, _ = np.linalg.svd(channel, full_matrices=False)
         G_H = np.diag(1. / S).dot(U.conj().T) * math.sqrt(Nt)
         return G_H
 
